@@ -2,6 +2,9 @@
 
 Theorems: lean/ArmiVerif/Props/C15.lean over lean/ArmiVerif/Model/Schedule.lean.
 Tie (stack construction): add/remove/get sequences and createInterfaces on a real Operator vs Model/IfaceStack.lean.
+Tie (coupler): `_performTightCoupling` called directly on a real Operator whose interfaces carry real TightCouplers (own
+maxIters below / at / above the run's cap, starting counters, dyadic tolerances and scripted values) vs `Schedule.coupledLoopS`
+(rounds, the couplers' own warnings, their counters afterwards); the interactAll<Event> methods called directly with excluded names.
 Tie (schedule): a real `Operator` on the smallest test reactor whose stack is replaced by recording
 `Interface` subclasses (generated order / enabled / bolForce / reverseAtEOL / deferred / halting /
 real `TightCoupler`s with scripted convergence); the event log (hook, interface, arguments,
@@ -23,14 +26,18 @@ PROP_MODULES = ["ArmiVerif.Props.C15"]
 PARTIAL = ("PROVED on the model: run_shape (run = independent declarative schedule, every configuration), active_spec, "
            "stack_order, active_nodup, eol_reverse_last, args_reflect_state, everyNode_calls, visited_mem, visited_sorted, "
            "fullCycles_range, halt_stops_and_EOL, complete_run, coupling_iters_converged / _cap, coupling_calls, "
+           "TightCoupler bookkeeping (isConverged_verdict, checkAll_verdict, coupledLoopS_rounds, roundsSpec_spec / _le_cap, "
+           "coupling_rounds_any_coupler_maxIters: rounds = min(run cap, first all-converged round + 1) whatever maxIters / counter "
+           "each interface's own coupler carries; coupling_rounds_congr; itersAt_eq_roundsSpec; coupling_rounds_with_couplers), "
            "cum_node_inverse (+ _right), cum_step_inverse, prev_node_spec, allNodes_numbering, visited_full_run, "
            "cum_numbering_is_visit_order (+ _index), steps_sum_simple / _detailed, steps_detailed_length, steps_cumulative_sum. "
            "Stack construction (Model/IfaceStack.lean): getInterface_spec, pyInsert_spec, addInterface_keeps_order, "
            "addInterface_duplicate_name, names_unique(_step), sortByOrder_perm / _sorted / _stable, createInterfaces_sorted. "
            "CORRESPONDENCE ONLY: _processInterfaceDependencies (dependency passes), uniqueness of functions over "
            "add/remove sequences (oracle clause), which configurations the code refuses (wellFormed). "
-           "NOT MODELLED: float rounding of l*a/b (step lengths are exact rationals), the '3R' repeat notation of "
-           "expandRepeatedFloats, r.p.stepLength / power inside hooks, MPI workers")
+           "Repeat notation (expandRepeatedFloats): expand_length, expand_plain, expand_val_rep, expand_rep_rep, expand_reject. "
+           "NOT MODELLED: float rounding of l*a/b (step lengths are exact rationals), "
+           "r.p.stepLength / power inside hooks (oracle clauses only), MPI workers")
 ASSUMPTIONS = [
     "a hook's return value matters only at BOC (truthy = halt request); convergence of a coupler is an arbitrary "
     "function of (interface, cycle, node, iteration), realised in the tie by real TightCouplers fed scripted values",
@@ -78,7 +85,12 @@ def gen_config(rng, small=False):
     if rng.random() < 0.1:
         deferred.append(77)  # a name that is not in the stack
     defCycle = rng.randint(0, nC + 1)
-    maxIters = rng.choice([1, 2, 3, 4]) if rng.random() < 0.95 else 0
+    maxIters = rng.choice([1, 2, 3, 4, 5, 6]) if rng.random() < 0.95 else 0
+    # every coupled interface carries ITS OWN TightCoupler; its maxIters is independent of the run setting (smaller, equal,
+    # larger) - it only drives the coupler's own counter / warning, never the operator's loop
+    for s in stack:
+        if s["coupler"]:
+            s["cmax"] = rng.choice([None, 1, 1, 2, 2, 3, 4, 6])
     skip = [c for c in range(nC + 1) if rng.random() < 0.25] if rng.random() < 0.5 else []
     halt = []
     if rng.random() < 0.35:
@@ -87,10 +99,19 @@ def gen_config(rng, small=False):
     conv = []
     if coupling:
         p = rng.choice([0.0, 0.3, 0.6, 1.0])
+        how = rng.choice(["bernoulli", "first", "first", "first"])
         for s in stack:
             if s["coupler"]:
                 for c in range(nC):
                     for nd in range((bs[c] if c < len(bs) else 0) + 1):
+                        if how == "first":
+                            # an independent convergence iteration per coupler and node: 0, 1, 2, ... (also at / past the cap =
+                            # never within it), converged from then on or at that iteration only
+                            k = rng.choice([0, 1, 2, 3, 4, 5, 7, None])
+                            if k is not None:
+                                its = range(k, max(maxIters, 1) + 1) if rng.random() < 0.7 else [k]
+                                conv += [[s["id"], c, nd, it] for it in its if it < max(maxIters, 1)]
+                            continue
                         for it in range(max(maxIters, 1)):
                             if rng.random() < p:
                                 conv.append([s["id"], c, nd, it])
@@ -169,7 +190,8 @@ def rec_classes():
             self.restart = (bset[1], bset[2]) if bset and bset[0] == spec["id"] else None
             if spec["coupler"]:
                 # a real TightCoupler: converged iff |value - previous| < 0.5
-                self.coupler = interfaces.TightCoupler("power", 0.5, max(cfg["maxIters"], 1))
+                # the coupler's OWN maxIters (`cmax`) need not be the run setting tightCouplingMaxNumIters
+                self.coupler = interfaces.TightCoupler("power", 0.5, spec.get("cmax") or max(cfg["maxIters"], 1))
 
         def _log(self, hook, *args):
             self.log.append(f"{hook}({self.ident},[{','.join(str(a) for a in args)}],{self.r.p.cycle},{self.r.p.timeNode})")
@@ -371,6 +393,44 @@ def check_time_state(ctx, cfg):
             return
 
 
+def expected_rounds(cfg, c, n):
+    """The property's clause, from the configuration alone: tight-coupling rounds at node (c, n) = none if coupling is off or the
+    cycle is exempt, else min(the SETTING's cap, 1 + the first iteration at which every active coupler reports convergence)."""
+    if not cfg["coupling"] or c in cfg["skip"]:
+        return 0
+    conv = {tuple(x) for x in cfg["conv"]}
+    couplers = [s["id"] for s in cfg["stack"] if s["enabled"] and s["coupler"]]
+    for it in range(cfg["maxIters"]):
+        if all((i, c, n, it) in conv for i in couplers):
+            return it + 1
+    return cfg["maxIters"]
+
+
+def check_coupling_rounds(ctx, cfg, obs):
+    """Number of interactAllCoupled rounds observed at every visited node (needs an enabled interface to observe them)."""
+    watchers = [s["id"] for s in cfg["stack"] if s["enabled"]]
+    if not watchers or not cfg["coupling"]:
+        return
+    evs = parse_log(obs)
+    w = watchers[0]
+    visited, rounds = [], {}
+    for (hook, ident, args, rc, rn) in evs:
+        if hook == "DbWrite":
+            visited.append((rc, rn))
+        if hook == "Coupled" and ident == w:
+            rounds.setdefault((rc, rn), []).append(args[0])
+    for (c, n) in visited:
+        got, want = rounds.get((c, n), []), expected_rounds(cfg, c, n)
+        ctx.count(f"coupling rounds at a node: {len(got)}")
+        if got != list(range(want)):
+            own = sorted({s.get("cmax") for s in cfg["stack"] if s["coupler"] and s.get("cmax")})
+            ctx.fail("schedule-coupling-rounds", "after every node the coupled interfaces are iterated until all couplers converge or the "
+                     "run's iteration cap (tightCouplingMaxNumIters) is reached - whatever maxIters the interfaces' own couplers carry",
+                     {"config": cfg, "node": [c, n], "cap": cfg["maxIters"], "own_coupler_maxIters": own},
+                     observed=got, expected=list(range(want)))
+            return
+
+
 def flat(groups):
     return ";".join(f"{h}({i},[{','.join(str(a) for a in args)}],{rc},{rn})" for (h, args, rc, rn, ids) in groups for i in ids)
 
@@ -463,6 +523,10 @@ def section_runs(ctx):
                                 "exempt cycles spelled as strings / floats"),
                                (cfg["coupling"] and sum(1 for x in cfg["stack"] if x["coupler"]) >= 2,
                                 "two or more couplers on one parameter name"),
+                               (cfg["coupling"] and any(x["coupler"] and x.get("cmax") and x["cmax"] < cfg["maxIters"] for x in cfg["stack"]),
+                                "a coupler whose own maxIters is below the run's cap"),
+                               (cfg["coupling"] and any(x["coupler"] and x.get("cmax") and x["cmax"] > cfg["maxIters"] for x in cfg["stack"]),
+                                "a coupler whose own maxIters is above the run's cap"),
                                (0 in cfg["burnSteps"], "zero burn steps")):
                 if flag:
                     ctx.count("config: " + name)
@@ -475,6 +539,7 @@ def section_runs(ctx):
                     ctx.fail("schedule-" + key, "event log of the real run equals the reference schedule of the property",
                              {"config": cfg}, observed=dict(detail, log=obs[:1500]), expected=exp[:1500])
                 check_time_state(ctx, cfg)
+                check_coupling_rounds(ctx, cfg, obs)
                 if cfg.get("avail") == 0.0:
                     ctx.count("config: availability exactly 0")
             else:
@@ -541,6 +606,27 @@ def directed_configs():
     never = dict(cbase, conv=[], maxIters=3, nCycles=3, burnSteps=[1, 1, 1])     # no convergence: 3 iterations where not exempt
     for skip, sp in (([1], "s"), ([1], "f"), ([1], "i"), ([0, 2], "sf"), ([0, 1, 2], "sif"), ([2, 0], "fs")):
         out.append(dict(never, skip=skip, skipSpelling=sp))
+    # an interface carrying ITS OWN TightCoupler whose maxIters is smaller than (equal to, larger than) the run setting, with
+    # convergence patterns that need more iterations than that: the operator iterates until ALL couplers converge or the
+    # SETTING's cap is reached; a coupler's own maxIters only drives its own warning
+    def cstack(cmaxes):
+        st = plain_stack(len(cmaxes), db=True)
+        return [dict(x, coupler=x["id"] != 0 and cmaxes[x["id"] - 1] is not False, cmax=(cmaxes[x["id"] - 1] or None) if x["id"] else None)
+                for x in st]
+    nodes2 = [(c, n) for c in range(2) for n in range(2)]
+    own = dict(base, halt=[], coupling=True, nCycles=2, burnSteps=[1, 1])
+    for cap, cmax, first in ((4, 1, 2), (4, 2, 3), (6, 1, 4), (6, 2, None), (3, 1, None), (5, 2, 2), (2, 1, 1), (3, 6, 2)):
+        conv = [] if first is None else [[1, c, n, it] for (c, n) in nodes2 for it in range(first, cap)]
+        out.append(dict(own, stack=cstack([cmax]), maxIters=cap, conv=conv))
+        out.append(dict(own, stack=cstack([cmax, False]), maxIters=cap, conv=conv, skip=[0], skipSpelling="s"))
+    # several coupled interfaces: independent convergence iterations and independent own maxIters (the slowest decides)
+    for cap, cmaxes, firsts in ((5, [1, 2, 1], [0, 3, 1]), (6, [2, 1, 3], [4, 0, 2]), (4, [1, 1, 1], [1, None, 0]),
+                                (3, [2, 6, 1], [2, 2, 2]), (6, [1, None, 2], [5, 1, 3]), (2, [1, 3, 1], [0, 0, 0])):
+        conv = [[i + 1, c, n, it] for i, f in enumerate(firsts) if f is not None for (c, n) in nodes2 for it in range(f, cap)]
+        out.append(dict(own, stack=cstack(cmaxes), maxIters=cap, conv=conv))
+        # the pattern differs per node: node (c, n) converges (c + n) iterations later
+        conv = [[i + 1, c, n, it] for i, f in enumerate(firsts) if f is not None for (c, n) in nodes2 for it in range(f + c + n, cap)]
+        out.append(dict(own, stack=cstack(cmaxes), maxIters=cap, conv=conv, skip=[1]))
     for a in (0.0, 1.0, 0.5):
         out.append(dict(base, stack=plain_stack(2), halt=[], avail=a))
         out.append(dict(base, stack=plain_stack(2), halt=[], avail=a, nCycles=1, burnSteps=[3]))
@@ -579,8 +665,11 @@ def section_active(ctx):
                 cfg = gen_config(rng)
                 cfg["coupling"] = False
                 cfg["nCycles"], cfg["burnSteps"], cfg["detailed"] = 1, [1], False
+                cfg["bolSet"] = None
+                cfg["halt"] = [[s_["id"], c_] for s_ in cfg["stack"] for c_ in range(cfg["deferredCycle"] + 2) if rng.random() < 0.15]
+                evlog = []
                 with common.quiet():
-                    o, r = build_operator(cfg, [])
+                    o, r = build_operator(cfg, evlog)
             ids = [s["id"] for s in cfg["stack"]]
             hook = rng.choice(["BOL", "BOC", "EveryNode", "EOC", "EOL", "Coupled"])
             excl = [i for i in ids if rng.random() < 0.3]
@@ -600,15 +689,64 @@ def section_active(ctx):
                          cases[-1], observed=got_ids, expected=want)
             if len(set(got_ids)) != len(got_ids):
                 ctx.fail("schedule-active-once", "each active interface is listed once", cases[-1], observed=got_ids)
+            # ---- the event itself, through the public interactAll<Event>(…, excludedInterfaceNames): who is called, in which
+            # order, with which arguments; what interactAllBOC returns (a halt request of ANY active interface)
+            del evlog[:]
+            node = rng.randint(0, 3)
+            r.p.cycle, r.p.timeNode = cyc, node
+            names = tuple(name_of(i) for i in excl)
+            with common.quiet():
+                if hook == "BOL":
+                    ret, args = o.interactAllBOL(excludedInterfaceNames=names), ()
+                elif hook == "BOC":
+                    ret, args = o.interactAllBOC(cyc), (cyc,)
+                elif hook == "EveryNode":
+                    ret, args = o.interactAllEveryNode(cyc, node, excludedInterfaceNames=names), (cyc, node)
+                elif hook == "EOC":
+                    ret, args = o.interactAllEOC(cyc, excludedInterfaceNames=names), (cyc,)
+                elif hook == "EOL":
+                    ret, args = o.interactAllEOL(excludedInterfaceNames=names), ()
+                else:
+                    for i_ in o.interfaces:          # every coupler needs a previous value; convergence itself is not the point here
+                        if getattr(i_, "coupler", None) is not None:
+                            i_.value = 0.0
+                    import collections
+                    o._convergenceSummary = collections.defaultdict(list)     # what _performTightCoupling sets up before its loop
+                    ret, args = o.interactAllCoupled(node), (node,)
+            r.p.cycle, r.p.timeNode = cfg["startCycle"], cfg["startNode"]
+            called = parse_log(";".join(evlog))
+            if [e[1] for e in called] != want or any(e[0] != hook or e[2] != args or (e[3], e[4]) != (cyc, node) for e in called):
+                ctx.fail("schedule-event-dispatch-" + hook, "at each event exactly the enabled (or forced at BOL), not excluded / deferred "
+                         "interfaces are called, once each, in stack order (EOL: reverse-flagged last, reversed), with the current "
+                         "cycle / node as arguments", cases[-1], observed=[list(e) for e in called], expected=[hook, want, list(args)])
+            if hook == "BOC":
+                halts = {tuple(x) for x in cfg["halt"]}
+                want_halt = any((i, cyc) in halts for i in want)
+                if bool(ret) != want_halt:
+                    ctx.fail("schedule-halt-request-returned", "interactAllBOC reports a halt request made by ANY active interface",
+                             cases[-1], observed=ret, expected=want_halt)
+                reqs.append(f"halts {cyc} {stack_arg(cfg['stack'])} {common.intlist(cfg['deferred'])} {cfg['deferredCycle']} {nested(cfg['halt'])}")
+                impl.append("T" if ret else "F"); cases.append(dict(cases[-1], op="interactAllBOC return"))
             ctx.case(reqs[-1])
             ctx.count("getActiveInterfaces " + hook)
+            ctx.count("interactAll" + hook + " called directly" + (" with excluded names" if excl and hook not in ("BOC", "Coupled") else ""))
     model = lean_run("Schedule", reqs)
     ctx.compare("Schedule.active vs Operator.getActiveInterfaces", cases, model, impl)
 
 
-def make_cs(bs):
-    """A settings-like mapping for the free functions of armi.utils (they only index cs[...])."""
-    return {"cycles": [{"step days": [1.0] * b} for b in bs], "nCycles": len(bs)}
+def make_cs(bs, kinds=None):
+    """A settings-like mapping for the free functions of armi.utils (they only index cs[...]); `kinds` picks, per cycle, one of
+    the three ways the detailed input gives a cycle (step days / cumulative days / burn steps + cycle length)."""
+    cyc = []
+    for k, b in enumerate(bs):
+        kind = (kinds or "")[k:k + 1] or "d"
+        if kind == "c" and b > 0:
+            cyc.append({"cumulative days": [1.25 * (i + 1) for i in range(b)]})
+        elif kind == "b" and b > 0:
+            cyc.append({"burn steps": b, "cycle length": 10.0, "availability factor": 0.5})
+        else:
+            cyc.append({"step days": [1.0] * b})
+    return {"cycles": cyc, "nCycles": len(bs)}
 
 
 def call(f, *a):
@@ -630,9 +768,25 @@ def section_arith(ctx):
     vectors = [v for n in range(1, L + 1) for v in itertools.product(range(E + 1), repeat=n)]
     reqs, impl, cases = [], [], []
     real_cs_every = ctx.pick(60, 6)
-    for vi, bs in enumerate(vectors):
+    # beyond the exhaustive box: long detailed histories of very unequal cycle lengths, each cycle given in one of the three forms
+    longer = []
+    for _ in range(ctx.pick(25, 400)):
+        n_ = ctx.rng.randint(5, 12)
+        longer.append((tuple(ctx.rng.choice([0, 0, 1, 2, 3, 5, 8, 13, 21]) for _ in range(n_)),
+                       "".join(ctx.rng.choice("dcb") for _ in range(n_))))
+    for vi, bs in enumerate(vectors + longer):
+        kinds = None
+        if vi >= len(vectors):
+            bs, kinds = bs
+            ctx.count("arithmetic: long detailed histories (5-12 cycles, 0-21 burn steps, mixed input forms)")
         bs = list(bs)
-        if vi % real_cs_every == 0 and bs:
+        if kinds is not None:
+            cs = make_cs(bs, kinds)
+            if vi % 5 == 0:
+                with common.quiet():
+                    cs = settings.Settings().modified(newSettings={"nCycles": len(bs), "cycles": cs["cycles"],
+                                                                   "burnSteps": None, "cycleLength": None})
+        elif vi % real_cs_every == 0 and bs:
             with common.quiet():
                 cs = settings.Settings().modified(newSettings={"nCycles": len(bs), "cycles": make_cs(bs)["cycles"],
                                                                "burnSteps": None, "cycleLength": None})
@@ -1037,11 +1191,225 @@ def section_stack(ctx):
     ctx.evaluations += len(reqs)
 
 
+def section_coupler(ctx):
+    """Function-level tie of `_performTightCoupling` / `interactAllCoupled` / `_checkTightCouplingConvergence` /
+    `TightCoupler.storePreviousIterationValue` / `isConverged`: a real Operator whose interfaces carry real TightCouplers
+    (own maxIters 1..6, a starting counter, a dyadic tolerance) and return scripted dyadic values before / after each round;
+    `_performTightCoupling` is called directly. Compared with `Schedule.coupledLoopS`: rounds run, warnings the couplers
+    issued themselves, every coupler's counter afterwards. Oracle: rounds = min(cap, 1 + first round in which every
+    coupler's |after - before| < tolerance)."""
+    from armi import interfaces
+    rng = ctx.rng
+    n = ctx.pick(120, 2500)
+
+    class CRec(interfaces.Interface):
+        name = "crec"
+
+        def __init__(self, r, cs, ident, spec, rounds):
+            self.name = name_of(ident)
+            super().__init__(r, cs)
+            self.ident, self.rounds, self.k, self.spec, self.warned = ident, rounds, 0, spec, 0
+            if spec is not None:
+                self.coupler = interfaces.TightCoupler("power", spec["tol"], spec["cmax"])
+                self.coupler._numIters = spec["num"]
+                inner = self.coupler.isConverged
+
+                def watched(val, _inner=inner):
+                    ok = _inner(val)
+                    if not ok and self.coupler._numIters == 0:
+                        self.warned += 1      # the counter was reset without convergence: the coupler's own warning branch
+                    return ok
+                self.coupler.isConverged = watched
+
+        def interactCoupled(self, iteration):
+            self.rounds.append((self.ident, iteration))
+
+        def getTightCouplingValue(self):
+            it, after = divmod(self.k, 2)
+            self.k += 1
+            return (self.spec["va"] if after else self.spec["vb"])[it]
+
+    reqs, impl, cases = [], [], []
+    with common.scratch_dir():
+        with common.quiet():
+            o, r = build_operator({"detailed": False, "nCycles": 1, "burnSteps": [1], "startCycle": 0, "startNode": 0,
+                                   "stack": [], "deferred": [], "deferredCycle": 0, "coupling": True, "maxIters": 1,
+                                   "skip": [], "halt": [], "conv": []}, [])
+        for q in range(n):
+            cap = rng.randint(1, 6)
+            m = rng.choice([1, 1, 2, 2, 3, 4])
+            grid = rng.choice([0.25, 0.5, 1.0])
+            specs = []
+            for i in range(m):
+                tol = rng.choice([0.25, 0.5, 1.0, 1.5])
+                first = rng.choice([0, 0, 1, 1, 2, 2, 3, 3, 4, 5, 7, None])      # this coupler's first converged round
+                vb, va = [], []
+                v = rng.randint(-4, 4) * grid
+                for it in range(cap):
+                    vb.append(v)
+                    if first is not None and (it == first or (it > first and rng.random() < 0.95)):
+                        d = rng.choice([0.0, tol - grid, -(tol - grid), tol / 2]) if tol > grid else rng.choice([0.0, tol / 2, -tol / 2])
+                    else:
+                        d = rng.choice([tol, -tol, tol + grid, -(tol + 2 * grid), 3.0])     # eps == tol exactly is NOT converged
+                    v = v + d
+                    va.append(v)
+                    if rng.random() < 0.3:
+                        v += rng.randint(-2, 2) * grid      # something else changes the value between rounds
+                cmax = rng.choice([1, 1, 2, 2, 3, 4, 5, 6])
+                specs.append({"tol": tol, "cmax": cmax, "num": rng.randint(0, cmax - 1) if rng.random() < 0.5 else 0,
+                              "vb": vb, "va": va})
+            rounds = []
+            o.removeAllInterfaces()
+            ifs = []
+            layout = list(range(m)) + ([None] if rng.random() < 0.5 else [])       # a coupled stack, maybe one without a coupler
+            rng.shuffle(layout)
+            for pos, k in enumerate(layout):
+                ifs.append(CRec(r, o.cs, pos + 1, None if k is None else specs[k], rounds))
+                o.addInterface(ifs[-1])
+            order = [k for k in layout if k is not None]
+            specs = [specs[k] for k in order]
+            cifs = [i for i in ifs if i.spec is not None]
+            with common.quiet():
+                o.cs = o.cs.modified(newSettings={"tightCoupling": True, "tightCouplingMaxNumIters": cap,
+                                                  "cyclesSkipTightCouplingInteraction": []})
+                try:
+                    o._performTightCoupling(0, 0, writeDB=False)
+                    nr = len([1 for (ident, it) in rounds if ident == ifs[0].ident])
+                    its = [it for (ident, it) in rounds if ident == ifs[0].ident]
+                    ans = f"{nr} {sum(i.warned for i in cifs)} {common.intlist([i.coupler._numIters for i in cifs])}"
+                except Exception as e:  # noqa
+                    ans, nr, its = "reject", None, []
+            case = {"cap": cap, "couplers": specs}
+            reqs.append("couple {} {} {} {} {} {} {}".format(
+                cap, common.intlist([i.ident for i in cifs]), common.intlist([x["cmax"] for x in specs]),
+                common.intlist([x["num"] for x in specs]), common.ratlist([x["tol"] for x in specs]),
+                "[" + ",".join(common.ratlist(x["vb"]) for x in specs) + "]",
+                "[" + ",".join(common.ratlist(x["va"]) for x in specs) + "]"))
+            impl.append(ans); cases.append(case)
+            # ---- oracle: the property's clause from the scripted values alone
+            want = cap
+            for it in range(cap):
+                if all(abs(x["va"][it] - x["vb"][it]) < x["tol"] for x in specs):
+                    want = it + 1
+                    break
+            if nr != want or its != list(range(want)):
+                ctx.fail("schedule-coupling-rounds", "the coupled interfaces are iterated until all couplers converge or the run's "
+                         "iteration cap (tightCouplingMaxNumIters) is reached - whatever maxIters the interfaces' own couplers carry",
+                         case, observed=its if nr is not None else ans, expected=list(range(want)))
+            ctx.count(f"coupler call: {want} rounds" + (" (cap, not converged)" if want == cap and not all(
+                abs(x["va"][cap - 1] - x["vb"][cap - 1]) < x["tol"] for x in specs) else ""))
+            if any(x["cmax"] < want for x in specs):
+                ctx.count("coupler call: rounds run exceed some coupler's own maxIters")
+            ctx.case(reqs[-1])
+        o.removeAllInterfaces()
+    model = lean_run("Schedule", reqs)
+    ctx.compare("Schedule.coupledLoopS vs Operator._performTightCoupling with real TightCouplers", cases, model, impl)
+    ctx.evaluations += len(reqs)
+
+
+def section_repeat(ctx):
+    """The MCNP repeat notation of the cycle inputs ('step days': [150, 200, '9R']): utils.mathematics.expandRepeatedFloats vs
+    Schedule.expandRepeated, then through getStepLengths / getBurnSteps / getPowerFractions / getAvailabilityFactors /
+    getCycleLengths. Oracle: an independent expansion (each number once, plus n more copies per following 'nR')."""
+    from armi import utils
+    from armi.utils import mathematics
+    rng = ctx.rng
+    reqs, impl, cases = [], [], []
+
+    def gen(allow_bad=True):
+        items, want = [], []
+        for k in range(rng.randint(0, 6)):
+            if (items or (allow_bad and rng.random() < 0.08)) and rng.random() < 0.4:
+                n_ = rng.choice([0, 1, 1, 2, 3, 9])
+                items.append(f"{n_}{rng.choice('Rr')}")
+                want = None if (want is None or not want) else want + [want[-1]] * n_
+            else:
+                v = common.dyadic(rng, 0.125, 64, 3)
+                items.append(rng.choice([v, v, str(v)]) if rng.random() < 0.9 else int(v) + 1)
+                if want is not None:
+                    want = want + [float(items[-1])]
+        return items, want
+
+    def token(x):
+        return (x.upper() if isinstance(x, str) and x.upper().endswith("R") else common.rat(float(x)))
+
+    for _ in range(ctx.pick(150, 3000)):
+        items, want = gen()
+        try:
+            got = mathematics.expandRepeatedFloats(list(items))
+        except IndexError:
+            got = None
+        reqs.append("expand [" + ",".join(token(x) for x in items) + "]")
+        impl.append("reject" if got is None else common.ratlist(got)); cases.append({"repeat_list": items})
+        if got != want:
+            ctx.fail("steps-repeat-notation", "a list in repeat notation stands for each number once plus n more copies per following 'nR'",
+                     cases[-1], observed=got, expected=want)
+        ctx.count("repeat list: " + ("refused (starts with a repeat)" if got is None else "expanded"))
+        ctx.case(reqs[-1])
+    # through the cycle-history functions: detailed cycles given by step days / power fractions in repeat notation; simple inputs
+    # with availabilityFactors / cycleLengths / powerFractions in repeat notation
+    for _ in range(ctx.pick(60, 1200)):
+        nC = rng.randint(1, 3)
+        cyc, wsteps, wpf = [], [], []
+        for _c in range(nC):
+            while True:
+                items, want = gen(allow_bad=False)
+                if want:
+                    break
+            pf_items, pf_want = [], []
+            for k, _v in enumerate(want):      # as many power fractions as steps, partly as repeats
+                if pf_items and rng.random() < 0.4 and not str(pf_items[-1]).upper().endswith("R"):
+                    run = 1
+                    pf_items.append("1R"); pf_want.append(pf_want[-1])
+                else:
+                    f = rng.choice([0.0, 0.5, 1.0, 0.25])
+                    pf_items.append(f); pf_want.append(f)
+            cyc.append({"step days": items, "power fractions": pf_items})
+            wsteps.append(want); wpf.append(pf_want)
+        cs = {"cycles": cyc, "nCycles": nC}
+        case = {"cycles": cyc}
+        got = (call(utils.getStepLengths, cs), call(utils.getBurnSteps, cs), call(utils.getPowerFractions, cs))
+        if got[0] != wsteps or got[1] != [len(w) for w in wsteps] or got[2] != wpf:
+            ctx.fail("steps-repeat-notation", "step days / power fractions in repeat notation give one step per expanded entry",
+                     case, observed=got, expected=(wsteps, [len(w) for w in wsteps], wpf))
+        ctx.case(("repeat-cycles", str(cyc)))
+        ctx.count("cycle inputs in repeat notation")
+    for _ in range(ctx.pick(40, 600)):
+        nC = rng.randint(2, 5)
+        def rep_list(lo, hi):
+            vals, items = [], []
+            while len(vals) < nC:
+                if vals and rng.random() < 0.4:
+                    n_ = rng.randint(1, nC - len(vals))
+                    items.append(f"{n_}R"); vals += [vals[-1]] * n_
+                else:
+                    v = common.dyadic(rng, lo, hi, 3); items.append(v); vals.append(v)
+            return items, vals
+        (a_i, a_v), (l_i, l_v), (p_i, p_v) = rep_list(0.125, 1), rep_list(1, 64), rep_list(0.125, 1)
+        b = rng.randint(1, 3)
+        cs = {"cycles": [], "nCycles": nC, "burnSteps": b, "availabilityFactors": a_i, "availabilityFactor": None,
+              "cycleLengths": l_i, "cycleLength": None, "powerFractions": p_i}
+        got = (call(utils.getAvailabilityFactors, cs), call(utils.getCycleLengths, cs), call(utils.getPowerFractions, cs),
+               call(utils.getStepLengths, cs))
+        want = (a_v, l_v, [[v] * b for v in p_v], [[l * a / b] * b for l, a in zip(l_v, a_v)])
+        if got[:3] != want[:3] or got[3] is None or any(abs(x - y) > 1e-9 * max(1, abs(y)) for r1, r2 in zip(got[3], want[3]) for x, y in zip(r1, r2)) \
+                or [len(r_) for r_ in got[3]] != [b] * nC:
+            ctx.fail("steps-repeat-notation", "availabilityFactors / cycleLengths / powerFractions in repeat notation give one value per cycle",
+                     {"cs": {k: v for k, v in cs.items() if k != "cycles"}}, observed=got, expected=want)
+        ctx.case(("repeat-simple", str(a_i), str(l_i), str(p_i), b))
+        ctx.count("simple inputs in repeat notation")
+    model = lean_run("Schedule", reqs)
+    ctx.compare("Schedule.expandRepeated vs utils.mathematics.expandRepeatedFloats", cases, model, impl)
+    ctx.evaluations += len(reqs)
+
+
 def run(ctx):
     section_stack(ctx)
     section_arith(ctx)
     section_steps(ctx)
+    section_repeat(ctx)
     section_active(ctx)
+    section_coupler(ctx)
     section_runs(ctx)
     ctx.exhaustive = False
     ctx.rule = ("stack construction: random addInterface(index/flags, same-name, same-function with derived / base / unrelated "
@@ -1050,9 +1418,12 @@ def run(ctx):
                 "generated run configurations (simple/detailed cycle inputs, zero burn steps, restart points incl. beyond the "
                 "end, 1-7 recording interfaces with enabled/bolForce/reverseAtEOL/deferred flags, halting interfaces, real "
                 "TightCouplers with scripted convergence, skipped cycles, cap 0, missing database interface): one case = one "
-                "whole run whose event log is compared exactly; getActiveInterfaces called directly with excluded names; node "
+                "whole run whose event log is compared exactly (couplers carry their own maxIters, independent convergence iterations "
+                "per coupler and node, cap 0..6); _performTightCoupling called directly with scripted coupler values; "
+                "getActiveInterfaces and interactAll<Event> called directly with excluded names; node "
                 "arithmetic EXHAUSTIVE for all burn-step vectors of length<=4 with entries<=4 (780 vectors; every function at "
-                "every node/step/cumulative index incl. out-of-range); step lengths on generated dyadic inputs. distinct = "
+                "every node/step/cumulative index incl. out-of-range) plus generated long detailed histories (5-12 cycles, 0-21 burn "
+                "steps, the three input forms mixed); step lengths on generated dyadic inputs. distinct = "
                 "distinct request lines; every case calls the real code.")
 
 
@@ -1071,6 +1442,7 @@ def check_config(cfg):
                        {"config": cfg}, observed=dict(detail, log=obs[:1500]), expected=exp[:1500])
     sub = common.Ctx("C15", "quick", 0)
     check_time_state(sub, cfg)
+    check_coupling_rounds(sub, cfg, obs)
     return sub.failures[0] if sub.failures else None
 
 
